@@ -52,12 +52,12 @@ package protocol
 //@ pred partsOf(ps [][]byte, E Bytes, key int, per int) = forall k int :: 0 <= k && k < len(ps) ==> ps[k] == cat(udh(key, len(ps), k + 1), ext(E, per * k, min(per * (k + 1), len(E))))
 
 //@ func EncodeCMPPContentAndSplit
-//@   props C06,C07
+//@   props C06,C07,C14
 //@   ensures [C06 coding.requested] cmppvalid(int(msgFmt)) && cmppok(int(msgFmt), content) && (len(cmppenc(int(msgFmt), content)) + 133) / 134 <= 255 ==> err == nil && int(actualMsgFmt) == int(msgFmt)
 //@   ensures [C06 coding.fallback] !(cmppvalid(int(msgFmt)) && cmppok(int(msgFmt), content)) && ucs2ok(content) && (len(ucs2enc(content)) + 133) / 134 <= 255 ==> err == nil && int(actualMsgFmt) == 8
 //@   ensures [C06 coding.error] !(cmppvalid(int(msgFmt)) && cmppok(int(msgFmt), content)) && !ucs2ok(content) ==> err != nil
 //@   ensures [C06,C07 single] err == nil && len(cmppenc(int(actualMsgFmt), content)) <= 140 ==> len(contents) == 1 && contents[0] == cmppenc(int(actualMsgFmt), content)
-//@   ensures [C06,C07 multi] err == nil && len(cmppenc(int(actualMsgFmt), content)) > 140 ==> len(contents) == (len(cmppenc(int(actualMsgFmt), content)) + 133) / 134 && len(contents) <= 255 && partsOf(contents, cmppenc(int(actualMsgFmt), content), int(frameKey), 134)
+//@   ensures [C06,C07,C14 multi] err == nil && len(cmppenc(int(actualMsgFmt), content)) > 140 ==> len(contents) == (len(cmppenc(int(actualMsgFmt), content)) + 133) / 134 && len(contents) <= 255 && partsOf(contents, cmppenc(int(actualMsgFmt), content), int(frameKey), 134)
 //@   ensures [C07 toomany] cmppvalid(int(msgFmt)) && cmppok(int(msgFmt), content) && (len(cmppenc(int(msgFmt), content)) + 133) / 134 > 255 ==> err != nil
 
 // ---------------------------------------------------------------- packed GSM 7-bit splitter (C06, C07, C14)
@@ -103,13 +103,13 @@ package protocol
 //@ pure func smppmax(f int) int = f == 0 ? 160 : 140
 
 //@ func EncodeSMPPContentAndSplit
-//@   props C06,C07
+//@   props C06,C07,C14
 //@   ensures [C06 coding.requested] (int(msgFmt) == 0 || int(msgFmt) == 1 || int(msgFmt) == 3 || int(msgFmt) == 8) && smppok(int(msgFmt), content) && (len(smppenc(int(msgFmt), content)) + smppper(int(msgFmt)) - 1) / smppper(int(msgFmt)) <= 255 ==> err == nil && int(actualMsgFmt) == int(msgFmt)
 //@   ensures [C06 coding.fallback] int(msgFmt) != 99 && !(smppvalid(int(msgFmt)) && smppok(int(msgFmt), content)) && ucs2ok(content) && (len(ucs2enc(content)) + 133) / 134 <= 255 ==> err == nil && int(actualMsgFmt) == 8
 //@   ensures [C06 coding.error] int(msgFmt) != 99 && !(smppvalid(int(msgFmt)) && smppok(int(msgFmt), content)) && !ucs2ok(content) ==> err != nil
 //@   ensures [C06,C07 single] err == nil && int(actualMsgFmt) != 99 && len(smppenc(int(actualMsgFmt), content)) <= smppmax(int(actualMsgFmt)) ==> len(contents) == 1 && contents[0] == smppenc(int(actualMsgFmt), content)
-//@   ensures [C06,C07 multi134] err == nil && int(actualMsgFmt) != 99 && int(actualMsgFmt) != 0 && len(smppenc(int(actualMsgFmt), content)) > 140 ==> len(contents) == (len(smppenc(int(actualMsgFmt), content)) + 133) / 134 && len(contents) <= 255 && partsOf(contents, smppenc(int(actualMsgFmt), content), int(frameKey), 134)
-//@   ensures [C06,C07 multi153] err == nil && int(actualMsgFmt) == 0 && len(gsmenc(content)) > 160 ==> len(contents) == (len(gsmenc(content)) + 152) / 153 && len(contents) <= 255 && partsOf(contents, gsmenc(content), int(frameKey), 153)
+//@   ensures [C06,C07,C14 multi134] err == nil && int(actualMsgFmt) != 99 && int(actualMsgFmt) != 0 && len(smppenc(int(actualMsgFmt), content)) > 140 ==> len(contents) == (len(smppenc(int(actualMsgFmt), content)) + 133) / 134 && len(contents) <= 255 && partsOf(contents, smppenc(int(actualMsgFmt), content), int(frameKey), 134)
+//@   ensures [C06,C07,C14 multi153] err == nil && int(actualMsgFmt) == 0 && len(gsmenc(content)) > 160 ==> len(contents) == (len(gsmenc(content)) + 152) / 153 && len(contents) <= 255 && partsOf(contents, gsmenc(content), int(frameKey), 153)
 //@   ensures [C06 packed] int(msgFmt) == 99 && err == nil ==> int(actualMsgFmt) == 99 || int(actualMsgFmt) == 8
 
 // ---------------------------------------------------------------- protocol-level content decoders (C05)
